@@ -30,7 +30,7 @@ RULE = ("sequence of implementations (binding x outcome) x layout x active conte
         "implementation registrations performed, traces = complete evaluate-and-compare executions")
 ASSUMPTIONS = ["reference resolution rule as stated in the property"]
 BOUNDS = {"quick": {"max_impls": 3}, "thorough": {"max_impls": 4}}
-CAP_S = {"quick": 150, "thorough": 1500}
+CAP_S = {"quick": 200, "thorough": 3600}
 
 BINDINGS = ["A", "B", "AB", "viaA", "viaB", "free"]
 OUTCOMES = ["value", "zero", "skip", "content", "error"]      # "zero": a falsy but real value (0)
